@@ -256,7 +256,7 @@ func (e *Exec) Verify() (obls []*Obligation, err error) {
 	// loop clause a loop
 	if e.fc != nil {
 		for ai, sa := range e.fc.Asserts {
-			if sa.LetName != "" {
+			if sa.LetName != "" || sa.Optional {
 				continue // a remembered value that is never defined stays false
 			}
 			if e.counts[fmt.Sprintf("site:%d:%s", ai, sa.When)] == 0 {
